@@ -20,6 +20,7 @@ let parse_event (s : string) : event_ru =
      | 'H' -> EReplyHalf (num ())
      | 'T' -> EReplyRest (num ())
      | 'A' -> EAbort (num ())
+     | 'G' -> EAbort (num ())     (* a reply that is no DNS message: for the transport a failed read, as an abort *)
      | _ -> failwith ("bad event_ru " ^ s))
 
 let run_reuse (parts : string list) : string =
